@@ -36,6 +36,7 @@ STRATA = [
     ("cs-config", 500, 6000),
     ("custom-config", 250, 3000),
     ("custom-gap", 300, 4000),
+    ("custom-uncovered", 200, 3000),
     ("cs-wide", 12, 200),
 ]
 REQUIRED_EVENTS = {"any": ["c17.plan.checked", "c17.demand.checked", "c17.optimal.exact-compared",
@@ -243,6 +244,24 @@ def _gen(stratum, rng, tier):
         init = _with_duplicates(rng, init)
         return {"kind": "custom", "dem": dem, "cols": sorted(cols), "init": [tuple(c) for c in init],
                 "pick": rng.choice(["best", "best", "first"]), "bp_max_iter": rng.choice([50, 1000, None])}
+    if stratum == "custom-uncovered":
+        # the initial columns cannot produce some demanded piece (the restricted master starts infeasible).  Whether the
+        # solvers can recover is not part of the statement - today they raise - but if a plan comes back it is judged like
+        # any other: "a plan that misses a demand is never presented as OPTIMAL or FEASIBLE"
+        c = _gen("custom-cols", rng, tier)
+        need = [i for i, d in enumerate(c["dem"]) if d > 0]
+        if not need:
+            c["dem"][0] = 2
+            need = [0]
+        hole = rng.choice(need)
+        init = [tuple(0 if i == hole else a for i, a in enumerate(col)) for col in c["init"]]
+        c["init"] = [col for col in init if any(col)] or [tuple(1 if i != hole else 0 for i in range(len(c["dem"])))]
+        if all(col[hole] == 0 for col in c["init"]) and len(c["dem"]) == 1:
+            c["dem"] = c["dem"] + [1]
+            c["cols"] = [tuple(col) + (0,) for col in c["cols"]] + [(0, 1)]
+            c["init"] = [(0, 1)]
+        c["accept_crash"] = True
+        return c
     if stratum == "custom-gap":
         # a caller-chosen optimality gap (gap_tol 1%..25%) on instances whose LP values sit just above an integer
         # (demand q*a + r with a wide column a): the gap may relax *optimality*, never integrality or the demands
@@ -409,7 +428,10 @@ def _solve_all(case, dem, common_kw, universe, fits, opt, obs, label):
             shown["on_progress"] = f"stop at call {stop[0]}, interval {stop[1]}"
         if stop or case.get(f"{solver}_kw"):
             obs.event("c17.config.cut-off-run")
-        res = call(obs, fn, list(dem), what=f"solve_{solver}", budget=case.get("budget", BUDGET), **ckw)
+        res = call(obs, fn, list(dem), what=f"solve_{solver}", budget=case.get("budget", BUDGET),
+                   expect=(Exception,) if case.get("accept_crash") else (), **ckw)
+        if case.get("accept_crash"):
+            obs.event("c17.uncovered.raised" if is_crash(res) else "c17.uncovered.answered")
         if not is_crash(res):
             _judge(res, solver, dem, fits, opt, obs, f"solve_{solver} {label} {shown or ''}", gap=kw.get("gap_tol"))
             it = getattr(res, "iterations", 0) or 0
